@@ -98,6 +98,14 @@ func VerifC02PublishLocal() {
 
 func VerifC02Connect() {
 	src := vBytes("src", 70000)
+	if vParam("VL", 1) == 1 && len(src) >= 2 {
+		vAssume(src[1] < 128) // one-byte remaining length (packets up to 129 bytes); VL=2 lifts this
+	}
+	// framed exactly to its declared extent (as the stream decoder passes it): reading beyond
+	// the extent is the subject of VerifC02ConnectOverread (known finding), not of this harness
+	if h := refHeader(src, CONNECT); h.ok {
+		vAssume(len(src) == h.hl+h.rl)
+	}
 	c := NewConnect()
 	n, err := c.Decode(src)
 	c02Common(n, err, src)
@@ -325,4 +333,26 @@ func VerifC02Suback() {
 		vAssert(!ref.ok, "decoder rejects only what the reference decoder rejects (SUBACK)")
 	}
 	vCover("c02-suback-end")
+}
+
+// VerifC02ConnectOverread: the known finding C02-connect-overread in its smallest form: a CONNECT
+// whose remaining length is too short for its fields, followed in the buffer by the bytes of those fields.
+func VerifC02ConnectOverread() {
+	body := []byte{0, 4, 'M', 'Q', 'T', 'T', 4, 2, 0, 0, 0, 1, 'c'}
+	rl := vInt("rl", 0, len(body))
+	src := append([]byte{0x10, byte(rl)}, body...)
+	c := NewConnect()
+	_, err := c.Decode(src)
+	strict := refDecodeConnect(src, false)
+	if rl == len(body) {
+		vAssert(err == nil && strict.ok, "the correctly framed packet is accepted")
+	} else if err == nil {
+		vAssert(!strict.ok, "reference rejects a CONNECT whose fields do not fit its remaining length")
+		if refDecodeConnect(src, true).ok {
+			vKnownFinding("C02-connect-overread")
+		} else {
+			vAssert(false, "decoder accepts only what the reference decoder accepts (CONNECT)")
+		}
+	}
+	vCover("c02-connect-overread-end")
 }
